@@ -35,4 +35,27 @@ theorem pod_layout {α : Type} (nan c1 c2 c3 c4 c5 : α) :
 
 example : klm3a3b (none : Option Nat) some some 1 77 = (some 77, none) := by decide
 
+/-- the channel-select value is the two lowest bits of the line's bit field: no other bit of that word
+changes what is delivered -/
+theorem select_low_bits (b : Nat) : ch3Switch b = b % 4 := by
+  unfold ch3Switch
+  exact Nat.and_two_pow_sub_one_eq_mod b 2
+
+theorem select_other_bits_irrelevant (b k : Nat) : ch3Switch (b + 4 * k) = ch3Switch b := by
+  rw [select_low_bits, select_low_bits]; omega
+
+/-- **Whole pixel, from the bit field**: for every 16-bit (indeed any) bit field whose select value is one
+the format defines, the six delivered slots are: channels 1, 2, 4, 5 untouched by the select value; 3a
+delivered exactly when the value is 1, 3b exactly when it is 0; whichever is delivered is the calibration
+of the line's third sample as routed by `get_counts`. -/
+theorem pixel_from_bit_field {α : Type} (nan : α) (calS calT : Nat → α) (b c0 c1 c2 c3 c4 : Nat)
+    (hb : b % 4 ≤ 2) :
+    (route (ch3Switch b) c0 c1 c2 c3 c4)[0]? = some c0 ∧ (route (ch3Switch b) c0 c1 c2 c3 c4)[1]? = some c1 ∧
+    (route (ch3Switch b) c0 c1 c2 c3 c4)[4]? = some c3 ∧ (route (ch3Switch b) c0 c1 c2 c3 c4)[5]? = some c4 ∧
+    klm3a3b nan calS calT (ch3Switch b) c2 =
+      (if b % 4 = 1 then calS c2 else nan, if b % 4 = 0 then calT c2 else nan) := by
+  rw [select_low_bits]
+  have : b % 4 = 0 ∨ b % 4 = 1 ∨ b % 4 = 2 := by omega
+  rcases this with h | h | h <;> simp [route, klm3a3b, h]
+
 end PygacModel.C14
